@@ -18,6 +18,7 @@ KIDS = {
     'hi': 'hi', 'sp': ' a  b ', 'nl': '\n  foo\n  ', 'blank': '\n   \n',
     'id': '{{v1}}', 'un': '{{u9}}', 'call': '{{f1(v2)}}', 'arrow': '{{() => v1}}', 'fn': '{{function () {{ return v2 }}}}',
     'obj': '{{{{a: () => v2}}}}', 'lit': '{{"s"}}', 'num': '{{1}}', 'mem': '{{v1.x}}', 'cond': '{{v1 ? v2 : v3}}',
+    'optcall': '{{f1?.(v2)}}', 'optmem': '{{v1?.x}}', 'optmcall': '{{v1.m?.()}}', 'newx': '{{new C1(v2)}}', 'tagged': '{{f1`t`}}', 'await': '{{(async () => await f1())()}}', 'paren': '{{(f1(v1))}}', 'seq': '{{(v1, f1())}}',
     'eld': '<div v-show={{v1}}>hi</div>', 'elf': '<input v-foo={{v2}}/>', 'spcall': '{{...f1(v2)}}', 'spobj': '{{...[v1, v2]}}', 'spfn': '{{...(() => [v1])()}}', 'empty': '{{}}', 'cmt': '{{/* c */}}', 'spread': '{{...v3}}', 'el': '<b/>', 'elt': '<i>x</i>', 'frag': '<>y</>', 'comp': '<C1/>',
 }
 HOSTS = {'div': ('div', 'div'), 'Foo': ('Foo', 'Foo'), 'C1': ('C1', 'C1'), 'mem': ('v1.Foo', 'v1.Foo'), 'memtag': ('v1.button', 'v1.button'), 'memsvg': ('v2.svg', 'v2.svg'), 'memdeep': ('v1.ui.table', 'v1.ui.table'), 'KeepAlive': ('KeepAlive', 'KeepAlive'),
@@ -37,10 +38,15 @@ def make_skeleton(spec):
             parts.append(KIDS[k])
     o, c = HOSTS[spec['host']]
     vs = VSLOTS[spec.get('vslots', '')] if spec['host'] != 'frag' else ''
-    src = PRELUDE + 'const _0 = <%s%s>%s</%s>;\n' % (o, vs, ''.join(parts), c)
+    jsx = '<%s%s>%s</%s>' % (o, vs, ''.join(parts), c)
+    # the element as the right-hand side of an assignment: to an unrelated variable, to a variable spelled like a generated temporary,
+    # to a variable one of whose namesakes (another binding) is the child
+    wrap = {None: 'const _0 = %s;', 'assign': 'const _0 = (v4 = %s);', 'assign-tempname': 'let _slot = 0;\nconst _0 = (_slot = %s);',
+            'assign-shadow': 'const _0 = (v1 = ((v1) => %s)(v2));'}[spec.get('wrap')]
+    src = PRELUDE + wrap % jsx + '\n'
     opts = {'enable_object_slots': 'sym', 'optimize': 'sym'}
     opts.update(spec.get('opts', {}))
-    return Skeleton('kids#%s|%s|%s' % (spec['host'], ','.join(spec['kids']), spec.get('vslots', '')), src, leaves, opts,
+    return Skeleton('kids#%s|%s|%s%s' % (spec['host'], ','.join(spec['kids']), spec.get('vslots', ''), '|' + spec['wrap'] if spec.get('wrap') else ''), src, leaves, opts,
                     patterns=['opaque'] if spec['host'] == 'cust' else None, meta={'family': 'kids/' + spec['host']})
 
 
@@ -56,6 +62,39 @@ def oracle(env):
     out = jsout.find_decl_init(env.post, '_0')
     if el is None or out is None:
         raise Unsupported('harness: element not found')
+    if not (isinstance(el, Adt) and el.ty == 'Expr' and el.variant in ('JSXElement', 'JSXFragment')):
+        hits = []
+
+        def f(v, p):
+            if isinstance(v, Adt) and v.ty == 'Expr' and v.variant in ('JSXElement', 'JSXFragment') and not hits:
+                hits.append(v)
+        astio.walk(el, f)
+        if not hits:
+            raise Unsupported('harness: element not found')
+        el = hits[0]
+    # unwrap `(x = <vnode>)` and `(x = ((x) => <vnode>)(y))`
+    for _ in range(6):
+        o2 = denote.E(out)
+        if denote.is_expr(o2, 'Paren'):
+            out = o2.fields[0].get('expr')
+        elif denote.is_expr(o2, 'Assign'):
+            out = o2.fields[0].get('right')
+        elif denote.is_expr(o2, 'Call') and o2.fields[0].get('callee').variant == 'Expr' and denote.is_expr(denote.E(o2.fields[0].get('callee').fields[0]), 'Paren'):
+            fn = denote.E(denote.E(o2.fields[0].get('callee').fields[0]).fields[0].get('expr'))
+            if denote.is_expr(fn, 'Arrow'):
+                b = deref(fn.fields[0].get('body'))
+                if b.variant == 'Expr':
+                    out = b.fields[0]
+                else:
+                    st = b.fields[0].get('stmts')
+                    rets = [x for x in st if x.variant == 'Return']
+                    if len(rets) != 1 or not is_some(rets[0].fields[0].get('arg')):
+                        break
+                    out = rets[0].fields[0].get('arg').fields[0]
+            else:
+                break
+        else:
+            break
     mv = denote.ModuleView(env.post)
     try:
         v = denote.vnode_view(out, mv)
@@ -108,7 +147,7 @@ def _shape(env, kids):
 
 COMP_HOSTS = ['Foo', 'C1', 'mem', 'memtag', 'memsvg', 'memdeep']       # a member expression is a component host whatever its last segment spells
 ELEM_HOSTS = ['div', 'frag', 'KeepAlive', 'cust']
-ONE = ['id', 'un', 'call', 'arrow', 'fn', 'obj', 'lit', 'mem', 'cond', 'hi', 'sp', 'nl', 'blank', 'T1', 'T2', 'E1', 'E2', 'empty', 'cmt', 'spread', 'spcall', 'spobj', 'spfn', 'el', 'elt', 'eld', 'elf', 'frag', 'comp', 'num']
+ONE = ['optcall', 'optmem', 'optmcall', 'newx', 'tagged', 'paren', 'seq', 'id', 'un', 'call', 'arrow', 'fn', 'obj', 'lit', 'mem', 'cond', 'hi', 'sp', 'nl', 'blank', 'T1', 'T2', 'E1', 'E2', 'empty', 'cmt', 'spread', 'spcall', 'spobj', 'spfn', 'el', 'elt', 'eld', 'elf', 'frag', 'comp', 'num']
 
 
 def kid_jobs(tier, hosts, vslots_for):
@@ -145,6 +184,15 @@ def _adjacent_text(a, b):
 
 
 def jobs(tier):
+    extra = []
+    for h in ('Foo', 'C1'):
+        for k in ('id', 'call', 'un', 'mem', 'arrow'):
+            for w in ('assign', 'assign-tempname', 'assign-shadow'):
+                extra.append({'module': MOD, 'spec': {'host': h, 'kids': [k], 'wrap': w}})
+    return extra + _jobs(tier)
+
+
+def _jobs(tier):
     js = kid_jobs(tier, COMP_HOSTS if tier != 'quick' else ['Foo', 'C1', 'memtag'], lambda h: ['', 'id', 'obj', 'call'] if h in ('Foo',) or tier != 'quick' else [''])
     return [{'module': MOD, 'spec': s} for s in js]
 
